@@ -662,8 +662,8 @@ Qed.
 Lemma undelegate_inv s o u v amt dn rcp s' : undelegate denoms true s o u v amt dn rcp = Ok s' ->
   exists c1 cost b, claim_cell denoms (cells s v) u = Ok c1 /\ k_calc_share c1 amt = Ok cost /\
     (0 <= cost <= csh c1 u)%Z /\ (0 < amt <= b)%Z /\ cB c1 = Some b /\ (cent c1 < o_max o)%Z /\
-    (0 <= v)%Z /\ (0 <= rcp)%Z /\ dn = FEE /\
-    s' = mkState (upd (cells s) v (reshare c1 u (- cost) (if (b - amt =? 0)%Z then None else Some (b - amt)%Z) (csd c1)))
+    (0 <= v)%Z /\ (0 <= rcp)%Z /\ dn = FEE /\ (0 <= o_ret o <= amt)%Z /\
+    s' = mkState (upd (cells s) v (reshare c1 u (- cost) (if (b - o_ret o =? 0)%Z then None else Some (b - o_ret o)%Z) (csd c1)))
                  (credit denoms s (cells s v) u) (add_leak denoms s o)
                  (q_insert (mkUnb (next_id s) rcp (o_ct o) (o_ret o)) (queue s)) (next_id s + 1).
 Proof.
@@ -679,6 +679,8 @@ Proof.
   destruct (Z.ltb_spec b amt); try discriminate.
   destruct (Z.leb_spec (o_max o) (cent c1)); try discriminate.
   destruct (Z.ltb_spec rcp 0); try discriminate.
+  destruct (Z.ltb_spec (o_ret o) 0); cbn [orb]; try discriminate.
+  destruct (Z.ltb_spec amt (o_ret o)); try discriminate.
   intros Hok. injection Hok as <-. exists c1, cost, b. repeat split; try lia; try assumption; try reflexivity.
 Qed.
 
@@ -1030,7 +1032,7 @@ Proof.
     + rewrite upd_other by exact Hne. eapply CellOK_ext; [|exact (HC v')].
       intros u0 d. unfold paid_upd. destruct (Z.eqb_spec v' v); [contradiction|reflexivity].
   - (* undelegate *)
-    destruct (undelegate_inv s o u v amt dn rcp s' Hst) as (c1 & cost & b & Hcl & Hks & Hco & Ha & HB & He & Hv & Hr & Hd & ->).
+    destruct (undelegate_inv s o u v amt dn rcp s' Hst) as (c1 & cost & b & Hcl & Hks & Hco & Ha & HB & He & Hv & Hr & Hd & Hret & ->).
     split; [|split].
     + cbn [fst snd cells gupd g_recv g_paid g_ent].
       intros v'. destruct (Z.eq_dec v' v) as [->|Hne].
@@ -1173,7 +1175,7 @@ Proof.
     destruct (Z.eq_dec v v1) as [->|Hv]; [|rewrite upd_other by exact Hv; apply Hcu].
     rewrite upd_same. unfold reshare. cbn [cchk cM]. destruct (claim_cell_inv denoms _ _ _ Hcl) as [_ ->]. cbn [cchk cM].
     destruct (u =? u1); [reflexivity|apply Hcu].
-  - destruct (undelegate_inv s o u1 v1 amt dn rcp s' Hst) as (c1 & cost & b & Hcl & _ & _ & _ & _ & _ & _ & _ & _ & ->). intros d. cbn [cells].
+  - destruct (undelegate_inv s o u1 v1 amt dn rcp s' Hst) as (c1 & cost & b & Hcl & _ & _ & _ & _ & _ & _ & _ & _ & _ & ->). intros d. cbn [cells].
     destruct (Z.eq_dec v v1) as [->|Hv]; [|rewrite upd_other by exact Hv; apply Hcu].
     rewrite upd_same. unfold reshare. cbn [cchk cM]. destruct (claim_cell_inv denoms _ _ _ Hcl) as [_ ->]. cbn [cchk cM].
     destruct (u =? u1); [reflexivity|apply Hcu].
@@ -1302,11 +1304,11 @@ Proof.
     assert (HcB : cB c1 = cB (cells s v)) by (destruct (claim_cell_inv denoms _ _ _ Hcl) as [_ ->]; reflexivity).
     unfold BI, reshare. cbn [cB cT]. split; [|intros _; discriminate].
     intros b Hb. injection Hb as <-. rewrite HcB. destruct (cB (cells s v)) as [b0|] eqn:E; [specialize (Hb1 b0 eq_refl); lia|lia].
-  - destruct (undelegate_inv s o u v amt dn rcp s' Hst) as (c1 & cost & b & Hcl & Hks & Hco & Ha & HB1 & He & Hv & Hr & Hd & ->). cbn [cells].
+  - destruct (undelegate_inv s o u v amt dn rcp s' Hst) as (c1 & cost & b & Hcl & Hks & Hco & Ha & HB1 & He & Hv & Hr & Hd & Hret & ->). cbn [cells].
     destruct (Z.eq_dec v' v) as [->|Hne]; [|rewrite upd_other by exact Hne; apply HB].
     rewrite upd_same. unfold BI, reshare. cbn [cB cT].
     assert (HcT : cT c1 = cT (cells s v)) by (destruct (claim_cell_inv denoms _ _ _ Hcl) as [_ ->]; reflexivity).
-    destruct (Z.eqb_spec (b - amt) 0) as [Hz|Hz].
+    destruct (Z.eqb_spec (b - o_ret o) 0) as [Hz|Hz].
     + split; [intros b0 Hb0; discriminate|]. intros Hpos. exfalso.
       assert (b = amt) by lia. subst b.
       unfold k_calc_share in Hks. destruct (Z.eqb_spec (cT c1) 0) as [HT0|HT0]; [lia|].
@@ -1385,11 +1387,11 @@ Lemma undelegate_available_of_GI sg o u v amt rcp b :
   cB (cells (fst sg) v) = Some b ->
   amt * cT (cells (fst sg) v) <= b * csh (cells (fst sg) v) u ->
   0 < cT (cells (fst sg) v) -> csh (cells (fst sg) v) u < SHLIM ->
-  cent (cells (fst sg) v) < o_max o ->
+  cent (cells (fst sg) v) < o_max o -> 0 <= o_ret o <= amt ->
   (forall d, In d denoms -> (kappa * inject_Z (g_recv (snd sg) v d) < 1)%Q) ->
   exists s', undelegate denoms true (fst sg) o u v amt FEE rcp = Ok s'.
 Proof.
-  intros HG Hu Hv Hr Ha HB Hcov HT Hsl He Hk. pose proof HG as (HC & _).
+  intros HG Hu Hv Hr Ha HB Hcov HT Hsl He Hret Hk. pose proof HG as (HC & _).
   destruct (HC v) as (HS & _ & HR & _).
   destruct (claim_cell_succeeds denoms users (cells (fst sg) v) u (g_recv (snd sg) v) HS Hu) as [c1 Hc1].
   { intros d Hd. split; [apply HR|apply Hk; exact Hd]. }
@@ -1413,7 +1415,9 @@ Proof.
   assert (amt <= b) by nia.
   destruct (Z.ltb_spec b amt); [lia|]. rewrite ?He1.
   destruct (Z.leb_spec (o_max o) (cent (cells (fst sg) v))); [lia|].
-  destruct (Z.ltb_spec rcp 0); [lia|]. eexists. reflexivity.
+  destruct (Z.ltb_spec rcp 0); [lia|].
+  destruct (Z.ltb_spec (o_ret o) 0); [lia|]. destruct (Z.ltb_spec amt (o_ret o)); [lia|]. cbn [orb].
+  eexists. reflexivity.
 Qed.
 End Sys.
 
@@ -1519,6 +1523,7 @@ Lemma undelegate_available tr o u v amt rcp b : wf_trace users tr ->
   In u users -> 0 <= v -> 0 <= rcp -> 0 < amt ->
   cB (cells s v) = Some b -> amt * cT (cells s v) <= b * csh (cells s v) u ->
   0 < cT (cells s v) -> csh (cells s v) u < SHLIM -> cent (cells s v) < o_max o ->
+  0 <= o_ret o <= amt ->
   (forall d, In d denoms -> (kappa * inject_Z (g_recv g v d) < 1)%Q) ->
   exists s', undelegate denoms true s o u v amt FEE rcp = Ok s'.
 Proof.
